@@ -1,5 +1,6 @@
 """Direct oracles for the structured-input properties C09 C10 C11 C12 and
 for C17 (input forms / isolation / hash seeds)."""
+import re
 import io
 import itertools
 import json
@@ -328,7 +329,7 @@ def verb_bodies(rng, n, name):
         b = b.replace('\\end{%s}' % name, '\\end{other}')
         if b.endswith('\\'):
             b += ' '
-        if '%' in b.rsplit('\n', 1)[-1]:
+        if '%' in re.split('[\n\r]', b)[-1]:      # CR ends a line (and a comment) too
             b += '\n'
         if b[:1] in '{[':
             b = '.' + b
